@@ -107,6 +107,51 @@ def discover_memo_dicts() -> list[tuple[str, str, dict[Any, Any]]]:
     return found
 
 
+_HOT: frozenset[Any] | None = None
+
+
+def hot_codes() -> frozenset[Any]:
+    """Code objects of btclib functions that touch state shared between callers without a lock: a function that
+    names a hand-rolled memo dict of its module (discover_memo_dicts), and a function outside object construction
+    that stores a private attribute (a lazily filled per-object cache, a wipe). The thread scheduler's rendezvous
+    strategy parks a thread inside one of these until another thread has passed through one."""
+    global _HOT  # noqa: PLW0603
+    if _HOT is not None:
+        return _HOT
+    import dis  # noqa: PLC0415
+    import types  # noqa: PLC0415
+
+    memo_names: dict[str, set[str]] = {}
+    for modname, name, _ in discover_memo_dicts():
+        memo_names.setdefault(modname, set()).add(name)
+    skip = {"__init__", "__post_init__", "__setattr__", "__setstate__", "__new__", "_no_init_or_replace_init"}
+    found = set()
+    for modname in sorted(sys.modules):
+        if not modname.startswith("btclib"):
+            continue
+        mod = sys.modules[modname]
+        for name in sorted(vars(mod)):
+            obj = vars(mod)[name]
+            fns: list[Any] = []
+            if isinstance(obj, types.FunctionType) and obj.__module__ == modname:
+                fns = [obj]
+            elif isinstance(obj, type) and obj.__module__ == modname:
+                fns = [v for _, v in sorted(vars(obj).items()) if isinstance(v, types.FunctionType)]
+            for f in fns:
+                if f.__name__ in skip:
+                    continue
+                code = f.__code__
+                if memo_names.get(modname, set()) & set(code.co_names):
+                    found.add(code)
+                    continue
+                for ins in dis.get_instructions(code):
+                    if ins.opname == "STORE_ATTR" and str(ins.argval).startswith("_") and not str(ins.argval).startswith("__"):
+                        found.add(code)
+                        break
+    _HOT = frozenset(found)
+    return _HOT
+
+
 def clear_all_caches(*, memos: bool = False) -> int:
     """Clear every lru_cache (safe at any instant: lru_cache is internally consistent).
     ``memos=True`` also clears the hand-rolled memo dicts: between runs only."""
@@ -161,6 +206,12 @@ class ShrunkCaches:
         for mod, name, value in discover_memo_bounds():
             self._undo.append((mod, name, value))
             setattr(mod, name, max(1, min(value, self.maxsize)))
+        if discover_memo_bounds():
+            # a memo holding more than its (lowered) bound is a state no history reaches: it keeps its latest
+            # entries, as many as the bound allows, so that the next call on another key is a miss at the bound
+            for _, _, d in discover_memo_dicts():
+                for k in list(d)[: max(0, len(d) - max(1, self.maxsize))]:
+                    del d[k]
         for _, _, obj in discover_caches():
             small = functools.lru_cache(maxsize=self.maxsize)(obj.__wrapped__)
             self.new.append(small)
